@@ -1,1 +1,175 @@
-import CaresModel.Options
+import CaresLemmas.TextCsv
+import CaresLemmas.TextPton
+/-!
+# C16 — configuration is saved, duplicated and re-applied losslessly; user settings win
+
+Property theorems only (helper lemmas: `CaresLemmas/TextOptions.lean`, `TextCsv.lean`, `TextPton.lean`).
+
+Model (`CaresModel/Options.lean`): `ares_init_by_options` (`applyOptions`, mask normalisation
+`normMask`), `ares_save_options` (`saveOptions`), `init_by_defaults` (`applyDefaults`),
+`ares_sysconfig_apply` (`sysconfigApply`), `ares_init_options` (`initOptions`), `ares_reinit`
+(`reinit`), `ares_dup` (`dup`), `ares_servers_update` (`serversUpdate`), `ares_get_servers_csv` /
+`ares_set_servers_ports_csv` (`getServersCsv` / `setServersCsv`).  The system configuration, the
+environment, the host name and the interface table are the parameter `SysEnv`; the theorems hold for
+every value of it, i.e. for all system-configuration file contents.
+
+The model follows the tree with the repairs F17, F30-C16 … F35-C16, F38-C16 (notes/C16.md); the pinned
+`use-vc` rule is kept as `sysconfigApplyG false` for the counterexample at the end.
+-/
+namespace Cares.C16
+open Cares.Text
+
+/-- **user_wins**: a setting whose option bit the application set is not touched by
+    `ares_sysconfig_apply`, whatever the system configuration says (and the mask itself is kept) -/
+theorem user_wins (c : Chan) (s : SysConfig) :
+    (sysconfigApply c s).optmask = c.optmask ∧
+    (c.optmask.servers = true → (sysconfigApply c s).servers = c.servers) ∧
+    (c.optmask.domains = true → (sysconfigApply c s).domains = c.domains) ∧
+    (c.optmask.lookups = true → (sysconfigApply c s).lookups = c.lookups) ∧
+    (c.optmask.sortlist = true → (sysconfigApply c s).sortlist = c.sortlist) ∧
+    (c.optmask.ndots = true → (sysconfigApply c s).ndots = c.ndots) ∧
+    (c.optmask.tries = true → (sysconfigApply c s).tries = c.tries) ∧
+    (c.optmask.timeoutms = true → (sysconfigApply c s).timeout = c.timeout) ∧
+    ((c.optmask.rotate = true ∨ c.optmask.norotate = true) → (sysconfigApply c s).rotate = c.rotate) ∧
+    (c.optmask.flags = true → (sysconfigApply c s).flags = c.flags) := by
+  have h := sysconfigApply_guarded c s
+  unfold guardedEq at h
+  exact ⟨h.1.symm, h.2⟩
+
+/-- … at every later reinit, under any sequence of system configurations -/
+theorem user_wins_reinit (c : Chan) (es : List SysEnv) : guardedEq c (es.foldl reinit c) := reinits_guarded c es
+
+/-- … and at initialisation: what the application passed (and initialisation accepted) is what the
+    channel holds afterwards, whatever the system configuration, environment and defaults say -/
+theorem user_wins_init (e : SysEnv) (o : Options) (m : Mask) (ch : Chan) (hwf : o.WF)
+    (h : initOptions e (some o) m = .ok ch) :
+    ch.optmask = normMask o m ∧
+    (ch.optmask.flags = true → ch.flags = toU32 o.flags) ∧
+    (ch.optmask.tries = true → ch.tries = o.tries.toNat) ∧
+    (ch.optmask.ndots = true → ch.ndots = o.ndots.toNat) ∧
+    (ch.optmask.lookups = true → ch.lookups = o.lookups) ∧
+    (ch.optmask.sortlist = true → o.nsort > 0 → ch.sortlist = o.sortlist) ∧
+    (ch.optmask.timeoutms = true → m.timeoutms = true → ch.timeout = o.timeout.toNat) ∧
+    (ch.optmask.servers = true →
+      ch.servers = serversUpdate ch.udpPort ch.tcpPort (hasFlag ch.flags flagPrimary) [] (o.servers.map v4Server)) := by
+  rw [initOptions_some] at h
+  split at h
+  · simp at h
+  · simp only [Except.ok.injEq] at h
+    subst h
+    obtain ⟨g0, g1, g2, g3, g4, g5, g6, g7, g8, g9, g10, g11, g12, g13, g14, g15, g16, g17⟩ := init_facts e o m hwf
+    obtain ⟨f0, f1, f2, f3, f4, f5, f6, f7, f8, f9, f10, f11, f12, f13, f14, f15, f16, f17, f18, f19, f20, f21⟩ :=
+      applyOptions_fields {} o m
+    refine ⟨g0, ?_, ?_, ?_, ?_, ?_, ?_, ?_⟩
+    · intro hb
+      rw [g0] at hb
+      have hm : m.flags = true := hb
+      rw [(g1 hb).1, f1]; simp [hm]
+    · intro hb
+      rw [g0] at hb
+      rw [(g3 hb).1, f3]; simp [hb]
+    · intro hb
+      rw [g0] at hb
+      rw [(g4 hb).1, f4]; simp [hb]
+    · intro hb
+      rw [g0] at hb
+      rw [(g10 hb).1, f13]; simp [hb]
+    · intro hb hn
+      rw [g0] at hb
+      have hm : m.sortlist = true := hb
+      rw [g11 hb, f14]; simp [hm, hn]
+    · intro hb hm
+      rw [g0] at hb
+      have hpos : o.timeout > 0 := by
+        have : ((m.timeoutms || m.timeout) && decide (o.timeout > 0)) = true := hb
+        simp only [Bool.and_eq_true, decide_eq_true_eq] at this
+        exact this.2
+      rw [(g2 hb).1, f2]; simp [hm, hpos]
+    · intro hb
+      rw [g0] at hb
+      rw [(g17 hb).1, f21, finish_primary, g6.1, g6.2]
+      simp [hb]
+
+/-- **save_init_fixpoint**: options saved from a freshly initialised channel and used to initialise a
+    new one under the same system configuration give the same channel — every field, including the
+    server list (which, coming from `struct in_addr` options or from the system configuration, the
+    legacy struct can carry) -/
+theorem save_init_fixpoint (e : SysEnv) (o : Options) (m : Mask) (ch : Chan) (hwf : o.WF)
+    (h : initOptions e (some o) m = .ok ch) :
+    ∃ o' m', saveOptions ch = .ok (o', m') ∧ initOptions e (some o') m' = .ok ch :=
+  save_init_fixpoint' e o m ch hwf h
+
+/-- **csv_fixpoint**: the server list rendered as text and fed back to the setter reproduces itself:
+    `getCsv (setCsv (getCsv ch)) = getCsv ch` (and the setter leaves every other setting alone).
+    Hypotheses: the list is one `ares_servers_update` produces (`ServersInv`, see `serversUpdate_inv`),
+    and every entry survives rendering + parsing (`entryOk`, a decidable predicate; false exactly for the
+    open findings F37-C16 / F39-C16). -/
+theorem csv_fixpoint (c : Chan) (ifs : Ifaces)
+    (hinv : ServersInv (hasFlag c.flags flagPrimary) c.servers)
+    (hok : ∀ s ∈ c.servers, entryOk ifs s = true) :
+    ∃ csv, getServersCsv c = some csv ∧
+      (setServersCsv c ifs csv).1 = .success ∧
+      getServersCsv (setServersCsv c ifs csv).2 = some csv ∧
+      (setServersCsv c ifs csv).2.servers = c.servers := by
+  obtain ⟨csv, h1, h2⟩ := csv_roundtrip c ifs hinv hok
+  refine ⟨csv, h1, ?_, ?_, ?_⟩
+  · rw [h2]
+  · rw [h2]; exact h1
+  · rw [h2]
+
+/-- every server list of a channel satisfies the invariant `csv_fixpoint` asks for -/
+theorem servers_invariant (u t : Nat) (p : Bool) (old : List Server) (l : List SConfig) :
+    ServersInv p (serversUpdate u t p old l) := serversUpdate_inv u t p old l
+
+/-- **dup_equiv**: a freshly initialised channel duplicated with `ares_dup` gives the same channel —
+    same effective settings, same ordered server list with per-protocol ports and interfaces; when the
+    servers were supplied by the application they travel through the CSV step. -/
+theorem dup_equiv (e : SysEnv) (o : Options) (m : Mask) (ch : Chan) (hwf : o.WF)
+    (h : initOptions e (some o) m = .ok ch)
+    (hok : ch.optmask.servers = true → ∀ s ∈ ch.servers, entryOk e.ifs s = true) :
+    dup ch e = .ok ch := dup_init e o m ch hwf h hok
+
+/-- **ntop_pton** (IPv4): parsing the text form of an address gives the address back -/
+theorem ntop_pton_v4 (a b c d : Nat) (ha : a < 256) (hb : b < 256) (hc : c < 256) (hd : d < 256) :
+    dnsPton .unspec (ntop (.v4 [a, b, c, d])) = some (.v4 [a, b, c, d]) :=
+  dnsPton_ntop_v4 a b c d ha hb hc hd
+
+/-! ## The pinned tree -/
+
+/-- F17: with the pinned rule `options use-vc` overrides the flags the application supplied -/
+theorem pinned_usevc_overrides_user_flags :
+    let c : Chan := { flags := 128, optmask := { flags := true } }
+    let s : SysConfig := { usevc := true }
+    (sysconfigApplyG false c s).flags = 129 ∧ (sysconfigApply c s).flags = 128 := by
+  decide
+
+/-! ## Non-vacuity -/
+
+/-- "nameserver 9.9.9.9\noptions attempts:5 ndots:4\n" -/
+def exResolv : Bytes :=
+  [110, 97, 109, 101, 115, 101, 114, 118, 101, 114, 32, 57, 46, 57, 46, 57, 46, 57, 10,
+   111, 112, 116, 105, 111, 110, 115, 32, 97, 116, 116, 101, 109, 112, 116, 115, 58, 53, 32, 110, 100, 111, 116, 115, 58, 52, 10]
+
+/-- tries and ndots supplied by the application, a resolv.conf that says otherwise: the channel keeps
+    the application's values and takes the server from the file; saving works and dup gives the same -/
+def exCheck : Bool :=
+  let e : SysEnv := { files := fun p => if p = pathResolvConf then some exResolv else none }
+  let m : Mask := { tries := true, ndots := true }
+  let o : Options := { tries := 2, ndots := 0 }
+  match initOptions e (some o) m with
+  | .ok ch =>
+    decide (ch.tries = 2) && decide (ch.ndots = 0) &&
+    decide (ch.servers = [{ addr := .v4 [9, 9, 9, 9], udp := 53, tcp := 53 }]) &&
+    (match dup ch e with
+     | .ok d => decide (d = ch)
+     | .error _ => false)
+  | .error _ => false
+
+example : exCheck = true := by decide +kernel
+
+example : entryOk (some []) { addr := .v4 [9, 9, 9, 9], udp := 53, tcp := 53 } = true := by decide +kernel
+example : entryOk (some [([108, 111], 1)])
+    { addr := .v6 [254, 128, 0, 0, 0, 0, 0, 0, 0, 0, 0, 0, 0, 0, 0, 1], udp := 53, tcp := 54, iface := [108, 111], scope := 1 } = true := by
+  decide +kernel
+
+end Cares.C16
